@@ -627,9 +627,14 @@ pub fn random_abstract(rng: &mut Rng, size: usize, break_links: bool) -> Value {
         .filter_map(|w| if rng.chance(1, 4) { Some(json!({"id": w["id"], "u": if rng.chance(1, 2) { 100 * rng.range(80, 500) } else { -1 },
             "fsh": if rng.chance(1, 2) { *rng.pick(&[0i64, 1000, 4500, 7300, 10000]) } else { -1 }})) } else { None })
         .collect();
+    // a construction link that points into the sibling collection (an id that exists, but not where it is looked up)
+    if break_links && rng.chance(1, 3) {
+        if let Some(w) = walls.first_mut() { w["cons"] = json!(vcs[0]); }
+        if let Some(v) = windows.first_mut() { v["cons"] = json!(wcs[0]); }
+    }
     json!({
         "placed": rng.chance(1, 3),
-        "meta": {"new": rng.chance(1, 2), "n50t": if rng.chance(1, 3) { *rng.pick(&[100i64, 1000, 6000, 20000, 53200, 90000]) } else { -1 },
+        "meta": {"dwelling": rng.chance(1, 2), "new": rng.chance(1, 2), "n50t": if rng.chance(1, 3) { *rng.pick(&[100i64, 1000, 6000, 20000, 53200, 90000]) } else { -1 },
                  "gvent": if rng.chance(1, 2) { 10000 * rng.range(10, 200) } else { -1 }, "zone": *rng.pick(&zones)},
         "spaces": sps.iter().map(|&s| json!({"id": s, "inside": !rng.chance(1, 4), "kind": *rng.pick(&["C", "C", "U", "N"]),
             "mult": *rng.pick(&[100i64, 100, 200, 300]), "h": 1000 * rng.range(22, 40),
